@@ -278,9 +278,9 @@ pub fn replay(v: &Value) -> Outcome {
 
 pub fn run(env: &Env, known: &Known, started: Instant, replayed: u64, replay_violations: Vec<Violation>) -> i32 {
     verify_catalogue();
-    let cfg = ChoiceRun { env, pid: PID, part: "accepted", cases: env.tier.pick(12_000, 400_000), max_len: 1200, known };
+    let cfg = ChoiceRun { env, pid: PID, part: "accepted", cases: env.tier.pick(40_000, 400_000), max_len: 1200, known };
     let mut rr = run_choices(&cfg, run_accepted);
-    let cfg = ChoiceRun { env, pid: PID, part: "faulted", cases: env.tier.pick(8_000, 250_000), max_len: 1200, known };
+    let cfg = ChoiceRun { env, pid: PID, part: "faulted", cases: env.tier.pick(24_000, 250_000), max_len: 1200, known };
     let r2 = run_choices(&cfg, run_faulted);
     rr.stats.merge(r2.stats);
     rr.violations.extend(r2.violations);
